@@ -138,14 +138,18 @@ func ParseDotEdges(dot string) ([]Edge, error) {
 	return edges, nil
 }
 
+// readQuoted reads one quoted DOT ID the way Graphviz lexes it: \" is a quote, \\ is a backslash pair (so a quote
+// after it closes the string), everything else is literal. The value is returned with each pair read as one backslash
+// (what a layout engine shows): the only reading under which a name with a backslash in front of a quote can be written
+// down at all. Names are thus compared modulo doubling of backslashes; the generators use no name with two in a row.
 func readQuoted(s string) (string, string, error) {
 	if !strings.HasPrefix(s, "\"") {
 		return "", "", fmt.Errorf("expected opening quote")
 	}
 	var sb strings.Builder
 	for i := 1; i < len(s); i++ {
-		if s[i] == '\\' && i+1 < len(s) && s[i+1] == '"' {
-			sb.WriteByte('"')
+		if s[i] == '\\' && i+1 < len(s) && (s[i+1] == '"' || s[i+1] == '\\') {
+			sb.WriteByte(s[i+1])
 			i++
 			continue
 		}
